@@ -121,12 +121,12 @@ theorem merge_frame {s : St} {db : DB} (hs : s.db = some db) (order : List Nat) 
 /-- only the directory entry matters -/
 theorem Adv.same_dir {s s' : St} {db db' : DB} (hd : db'.dir = db.dir)
     (hw : s'.world.get db.dir = s.world.get db.dir) (ha : db'.activeId = db.activeId) : Adv s db s' db' := by
-  refine ⟨hd, fun ht => ?_⟩
+  refine ⟨hd, Nat.le_of_eq ha.symm, fun ht => ?_⟩
   have : filesOf s' db' = filesOf s db := by
     unfold filesOf dirOf
     rw [hd, hw]
   rw [this, ha]
-  exact ⟨ht, DExt.refl _⟩
+  exact ⟨ht, DExt.refl _ _⟩
 
 /-- **`Merge` only extends the handle's data files** (it adds one empty file), whatever the
     visiting order and whatever the outcome -/
@@ -182,7 +182,7 @@ theorem Step_backup (s : St) (dest : String) : Step s (backup s dest).1 := by
   refine ⟨db, hs, ?_⟩
   by_cases hne : dest = db.dir
   · subst hne
-    refine ⟨rfl, fun ht => ?_⟩
+    refine ⟨rfl, Nat.le_refl _, fun ht => ?_⟩
     have hfs : filesOf (backupSt s db db.dir) db
         = (filesOf s db).foldl (fun acc (x : Nat × FileSt) =>
               setFile acc x.1 { x.2 with synced := x.2.bytes.size }) (filesOf s db) := by
@@ -206,7 +206,7 @@ theorem Step_backup (s : St) (dest : String) : Step s (backup s dest).1 := by
       | some f' =>
         rw [hg] at this
         simp only [Option.map_some, Option.some.injEq] at this
-        exact ⟨f', rfl, by rw [this]; exact FExt.refl _⟩
+        exact ⟨f', rfl, by rw [this]; exact FExt.refl _, fun _ => this⟩
   · refine Adv.same_dir rfl ?_ rfl
     unfold backupSt
     exact get_set_ne _ _ _ _ (fun e => hne e.symm)
